@@ -22,6 +22,8 @@ pub enum Case {
     Ooxml { info: u8, package_len: u32, seed: u32, dataspaces: bool, layout: CfbLayout },
     Biff { kind: u8, before: u8, layout: CfbLayout, wide_name: bool },
     Ods { encrypted: Vec<u8>, seed: u32 },
+    /// BIFF5/BIFF7 workbook ("Book" stream) whose FILEPASS is the 4-byte XOR form (key, hash)
+    Biff5 { before: u8, key: u16, hash: u16, layout: CfbLayout },
     NegXlsx { decoy: u8 },
     NegXlsb { decoy: u8 },
     NegXls { decoy: u8, layout: CfbLayout },
@@ -29,10 +31,12 @@ pub enum Case {
 }
 
 fn case_strategy() -> impl Strategy<Value = Case> {
-    let plen = prop_oneof![2 => proptest::sample::select(vec![0u32, 1, 8, 4095, 4096, 4097, 8192]), 2 => 0u32..10_000, 1 => 0u32..200_000];
+    // about one package in a hundred is large enough to need more than 109 FAT sectors (a DIFAT sector)
+    let plen = prop_oneof![40 => proptest::sample::select(vec![0u32, 1, 8, 4095, 4096, 4097, 8192]), 40 => 0u32..10_000, 20 => 0u32..200_000, 1 => 7_000_000u32..9_000_000];
     prop_oneof![
         4 => (0u8..3, plen, any::<u32>(), any::<bool>(), layout_strategy()).prop_map(|(info, package_len, seed, dataspaces, layout)| Case::Ooxml { info, package_len, seed, dataspaces, layout }),
         4 => (0u8..4, 0u8..3, layout_strategy(), any::<bool>()).prop_map(|(kind, before, layout, wide_name)| Case::Biff { kind, before, layout, wide_name }),
+        1 => (0u8..3, any::<u16>(), any::<u16>(), layout_strategy()).prop_map(|(before, key, hash, layout)| Case::Biff5 { before, key, hash, layout }),
         3 => (proptest::collection::vec(0u8..4, 1..5), any::<u32>()).prop_map(|(encrypted, seed)| Case::Ods { encrypted, seed }),
         1 => (0u8..4).prop_map(|decoy| Case::NegXlsx { decoy }),
         1 => (0u8..4).prop_map(|decoy| Case::NegXlsb { decoy }),
@@ -129,6 +133,7 @@ fn oracle(case: &Case) -> Report {
             rep.label("positive:ooxml");
             rep.label(["info:standard", "info:agile", "info:random"][*info as usize % 3]);
             rep.label_if(*package_len < 4096, "package-in-mini-stream");
+            rep.label_if(*package_len >= 7_000_000, "package-needs-difat-sector");
             rep.label_if(cinfo.fragmented, "fragmented-layout");
             rep.label_if(layout.v4, "cfb-v4");
             rep.nontrivial = cinfo.fragmented || *package_len < 4096;
@@ -154,6 +159,41 @@ fn oracle(case: &Case) -> Report {
             rep.label(["filepass:xor", "filepass:rc4", "filepass:cryptoapi", "filepass:cryptoapi4"][*kind as usize % 4]);
             rep.label_if(*before != 0, "filepass-not-second-record");
             rep.nontrivial = *before != 0 || layout.perm_seed != 0;
+        }
+        Case::Biff5 { before, key, hash, layout } => {
+            let rec = |id: u16, data: &[u8]| {
+                let mut v = id.to_le_bytes().to_vec();
+                v.extend_from_slice(&(data.len() as u16).to_le_bytes());
+                v.extend_from_slice(data);
+                v
+            };
+            // BOF: BIFF5 (0x0500), workbook globals (0x0005), build, year
+            let mut stream = rec(0x0809, &[0x00, 0x05, 0x05, 0x00, 0xBB, 0x0D, 0xCC, 0x07]);
+            match before % 3 {
+                1 => stream.extend(rec(0x0086, &[])), // WRITEPROT
+                2 => {
+                    stream.extend(rec(0x00E1, &[0xE4, 0x04])); // INTERFACEHDR
+                    stream.extend(rec(0x0086, &[]));
+                }
+                _ => {}
+            }
+            let mut fp = key.to_le_bytes().to_vec();
+            fp.extend_from_slice(&hash.to_le_bytes());
+            stream.extend(rec(0x002F, &fp));
+            // obfuscated remainder
+            stream.extend(rec(0x0042, &pseudo_bytes(2, 3)));
+            stream.extend(rec(0x0085, &pseudo_bytes(14, 4)));
+            stream.extend(rec(0x000A, &[]));
+            let (file, _) = write_cfb(&[CfbStream::root("Book", stream)], layout);
+            let r = guard(|| Xls::new(Cursor::new(file)));
+            match &r {
+                Ok(r) if is_password(r, "Password") => {}
+                Ok(r) => rep.fail(format!("BIFF5 workbook with a 4-byte XOR FILEPASS: {:?}, expected XlsError::Password", r.as_ref().map(|_| "Ok(workbook)").map_err(|e| format!("{e:?}")))),
+                Err(p) => rep.fail(format!("BIFF5 workbook with FILEPASS: {p}")),
+            }
+            rep.label("positive:biff5");
+            rep.label_if(*before % 3 != 0, "filepass-not-second-record");
+            rep.nontrivial = true;
         }
         Case::Ods { encrypted, seed } => {
             let names = ["content.xml", "styles.xml", "meta.xml", "settings.xml"];
